@@ -120,3 +120,12 @@ func init() {
 		NotCovered: "that the error bounds are sufficient (their derivations are trusted), results on concrete tuples, big.Float arithmetic itself.",
 	}
 }
+
+func init() {
+	Properties["C03"] = PropertySpec{
+		Rules: []string{"R-XSTATE", "R-CROSSENUM", "R-CONST", "R-STAGES"},
+		Explanation: "Exactness and history independence of the edge crosser, reduced to: the cached vertex and orientation are updated on every exit (through a closure that captures the variable), the vertex-crossing fallback sees the pre-call vertex, " +
+			"the three-valued result is consumed consistently, MaybeCross only behind an endpoint equality, the tangent-rejection bound is not weakened, and the orientation stages it relies on are ordered.",
+		NotCovered: "the numeric result on concrete quadruples; symmetry under edge reversal on concrete inputs.",
+	}
+}
